@@ -59,47 +59,66 @@ def tree_hash(repo):
 
 
 def extract(repo, config="all", crate="vfs"):
-    """run the vfs-facts driver over `repo`; returns the path of the fact file (cached per tree hash)"""
+    """run the vfs-facts driver over `repo`; returns the path of the fact file (cached per tree hash).
+    Locking: one lock per cache entry (two runs on the same tree extract once), one per cargo target directory (runs with
+    different VFS_FACTS_TARGET directories extract in parallel), a short global one around eviction."""
     th = tree_hash(repo)
     cache = os.path.join(V, ".cache", "facts")
     os.makedirs(cache, exist_ok=True)
     out = os.path.join(cache, "%s-%s-%s.json" % (crate, config, th))
-    lock = open(os.path.join(cache, ".lock"), "w")
-    fcntl.flock(lock, fcntl.LOCK_EX)
+    target = os.environ.get("VFS_FACTS_TARGET") or os.path.join(V, ".cache", "target")
+    entry_lock = open(os.path.join(cache, ".lock-%s-%s" % (config, th)), "w")
+    fcntl.flock(entry_lock, fcntl.LOCK_EX)
     try:
         if os.path.exists(out) and os.path.getsize(out) > 0 and not os.environ.get("VFS_FACTS_NOCACHE"):
             os.utime(out, None)  # mark as in use: concurrent runs on other trees only evict entries idle for hours
             return out
-        # evict cache entries of this config that no run has touched for 2 hours (never a file another concurrent
-        # check may be about to read: every cache hit refreshes the mtime under this lock)
-        now = time.time()
-        entries = []
-        for f in os.listdir(cache):
-            if f.startswith("%s-" % crate):
+        # evict cache entries that no run has touched for 2 hours (never a file another concurrent check may be about to
+        # read: every cache hit refreshes the mtime under its entry lock)
+        glock = open(os.path.join(cache, ".lock"), "w")
+        fcntl.flock(glock, fcntl.LOCK_EX)
+        try:
+            now = time.time()
+            entries = []
+            for f in os.listdir(cache):
                 fp_ = os.path.join(cache, f)
                 try:
-                    entries.append((os.path.getmtime(fp_), os.path.getsize(fp_), fp_))
+                    if f.startswith("%s-" % crate):
+                        entries.append((os.path.getmtime(fp_), os.path.getsize(fp_), fp_))
+                    elif f.startswith(".lock-") and now - os.path.getmtime(fp_) > 86400:
+                        os.remove(fp_)
                 except OSError:
                     pass
-        entries.sort()
-        total = sum(e[1] for e in entries)
-        for mt, sz, fp_ in entries:
-            # idle for 2 hours, or (cache above 3 GB) the least recently used ones that have been idle for 10 minutes
-            if now - mt > 7200 or (total > 3 << 30 and now - mt > 600):
-                try:
-                    os.remove(fp_)
-                    total -= sz
-                except OSError:
-                    pass
-        cmd = [os.path.join(V, "bin", "extract.sh"), os.path.join(repo, "Cargo.toml"), crate, out] + CONFIGS[config]
-        p = subprocess.run(cmd, stdout=subprocess.PIPE, stderr=subprocess.PIPE, text=True)
-        if p.returncode != 0 or not os.path.exists(out):
-            sys.stderr.write(p.stderr[-6000:])
-            raise RuntimeError("fact extraction failed for config %s (the tree does not compile?)" % config)
+            entries.sort()
+            total = sum(e[1] for e in entries)
+            for mt, sz, fp_ in entries:
+                # idle for 2 hours, or (cache above 3 GB) the least recently used ones that have been idle for 10 minutes
+                if now - mt > 7200 or (total > 3 << 30 and now - mt > 600):
+                    try:
+                        os.remove(fp_)
+                        total -= sz
+                    except OSError:
+                        pass
+        finally:
+            fcntl.flock(glock, fcntl.LOCK_UN)
+            glock.close()
+        tlock = open(os.path.join(cache, ".lock-target-%s" % hashlib.sha256(target.encode()).hexdigest()[:12]), "w")
+        fcntl.flock(tlock, fcntl.LOCK_EX)
+        try:
+            tmp = out + ".tmp.%d" % os.getpid()
+            cmd = [os.path.join(V, "bin", "extract.sh"), os.path.join(repo, "Cargo.toml"), crate, tmp] + CONFIGS[config]
+            p = subprocess.run(cmd, stdout=subprocess.PIPE, stderr=subprocess.PIPE, text=True)
+            if p.returncode != 0 or not os.path.exists(tmp):
+                sys.stderr.write(p.stderr[-6000:])
+                raise RuntimeError("fact extraction failed for config %s (the tree does not compile?)" % config)
+            os.replace(tmp, out)
+        finally:
+            fcntl.flock(tlock, fcntl.LOCK_UN)
+            tlock.close()
         return out
     finally:
-        fcntl.flock(lock, fcntl.LOCK_UN)
-        lock.close()
+        fcntl.flock(entry_lock, fcntl.LOCK_UN)
+        entry_lock.close()
 
 
 def load_known():
